@@ -145,6 +145,20 @@ static void spectrum_cases(int d, const std::vector<double>& E, const std::vecto
       }
     }
   }
+  // (c') "every table entry is finite for finite inputs": spectra and intervals whose products (level x time, width of the interval)
+  //      overflow although every argument is finite
+  if (Emax > 0 && (std::fabs(E[0] - (std::sqrt(2.0) - 1.7)) < 1e-12 || ((long)(E[0] + 2 * E[1] + 4 * E[d - 1]) % 5 == 0))) {
+    const double CASES[][3] = {{1e160, 1e150, 3e150}, {1e10, -2e300, -1e300}, {1.0, 1e308, 1.5e308}, {1.0, -1.5e308, 1.5e308}, {1e300, 1e10, 2e10}, {1e-300, -1e308, 1e308}};
+    for (auto& cs : CASES) {
+      std::vector<double> Eu(d); for (int i = 0; i < d; i++) Eu[i] = E[i] * cs[0];
+      SU_vector Hu = mkvec(d, B.proj(ref::diag(Eu)));
+      std::vector<double> buf(2 * np, 5.0);
+      count("evaluations"); { uint64_t h = ref::fnv(cs, sizeof cs, hE); distinct(h ^ 23); }
+      Hu.PrepareEvolve(buf.data(), cs[1], cs[2]);
+      bool fin = true; for (double x : buf) if (!std::isfinite(x)) fin = false;
+      if (!fin) violation("PrepareEvolve(t0,t1):nonfinite:overflowing-products" + ds, J().i("d", d).arr("spectrum", Eu).num("t0", cs[1]).num("t1", cs[2]).arr("buffer", buf).done());
+    }
+  }
   // (c) interval average
   const double IV[][2] = {{0, 1}, {-1, 2}, {0.5, 10}, {0, 1e-3}, {-1.5, 1.5}, {-0.25, 0.25}, {134217728.0, 134217729.0}, {1e6, 1e6 + 0.5}, {-3e5, -3e5 + 2}, {4096, 4096 + 1.0 / 1024}};   // incl. intervals symmetric about 0 (every sine average vanishes exactly)
   std::vector<std::vector<double>> probes = {probe(d, 0), probe(d, 1)};
